@@ -114,7 +114,11 @@ func genClientCase(t *rapid.T, hostile bool) *Case {
 				op.Opts = policy()
 			case k < 42:
 				op.K = "register"
-				op.Opts = append(policy(), KV{"handler", VStr(pick(t, []string{"fast", "fast", "slow", "wait", "progress", "error"}, "handler"))}, KV{"hsleep", VI64(pick(t, []int64{1, 1e6, 50e6}, "hsleep"))})
+				kinds := []string{"fast", "fast", "slow", "wait", "progress", "error"}
+				if hostile {
+					kinds = append(kinds, "ctxwait")
+				}
+				op.Opts = append(policy(), KV{"handler", VStr(pick(t, kinds, "handler"))}, KV{"hsleep", VI64(pick(t, []int64{1, 1e6, 50e6}, "hsleep"))})
 				regs = append(regs, made{ordinal, g})
 				unreggable = append(unreggable, made{ordinal, g})
 			case k < 48 && len(unreggable) > 0:
@@ -214,6 +218,23 @@ func genClientCase(t *rapid.T, hostile bool) *Case {
 					invID++
 					op.Msg = &RawMsg{Type: 68, Fields: []V{VID(uint64(invID)), VID(uint64(idOf(pick(t, regs, "preg").ord))), details, args}}
 				}
+			case k < 61 && len(regs) > 0:
+				// the same INVOCATION three times at once
+				invID++
+				reg := pick(t, regs, "treg").ord
+				for j := 0; j < 2; j++ {
+					c.Ops = append(c.Ops, Op{K: "rinvoke", S: -1, Ns: op.Ns, N: invID, Ref: fmt.Sprint(reg)})
+				}
+				op.K, op.N, op.Ref = "rinvoke", invID, fmt.Sprint(reg)
+			case k < 64:
+				// a progressive RESULT or an ERROR for some request, wanted or not
+				op.K = "rraw"
+				req := VID(uint64(1 + uni(t, ordinal+2, "preq")))
+				if pct(t, 60, "progres") {
+					op.Msg = &RawMsg{Type: 50, Fields: []V{req, VDict(KV{"progress", VBool(true)}), VList(VI64(1), VI64(1))}}
+				} else {
+					op.Msg = &RawMsg{Type: 8, Fields: []V{VI64(int64(pick(t, []int{48, 32, 64, 16, 34, 66}, "petype"))), req, VDict(), VURI("wamp.error.canceled")}}
+				}
 			case k < 70:
 				op.K = "rgoodbye"
 			case k < 78:
@@ -226,9 +247,16 @@ func genClientCase(t *rapid.T, hostile bool) *Case {
 			}
 			c.Ops = append(c.Ops, op)
 		}
-		// a goroutine that closes the client at some point
-		if pct(t, 50, "closer") {
-			c.Ops = append(c.Ops, Op{K: "close", S: ng, Ns: pick(t, times, "closeat"), Par: true})
+		c.P["features"] = VStr(pick(t, []string{"full", "full", "noppt", "none"}, "features"))
+		// goroutines that close the client at some point, then keep using it
+		ncl := pick(t, []int{0, 0, 1, 1, 2}, "closers")
+		for k := 0; k < ncl; k++ {
+			c.Ops = append(c.Ops, Op{K: "close", S: ng + k, Ns: pick(t, times, "closeat"), Par: true})
+			if pct(t, 50, "latecall") {
+				ordinal++
+				c.Ops = append(c.Ops, Op{K: pick(t, []string{"subscribe", "publish", "call", "register"}, "latek"), S: ng + k, N: ordinal, Par: true,
+					Opts: []KV{{"reply", VStr("now")}, {"cancelreply", VStr("error")}, {"handler", VStr("fast")}}})
+			}
 		}
 	}
 	return c
@@ -296,6 +324,7 @@ type apiResult struct {
 	err      error
 	result   *wamp.Result
 	returned bool
+	afterClose bool // started after a Close() of the client had returned
 }
 
 type rig struct {
@@ -334,6 +363,9 @@ type rig struct {
 	ready     map[int]chan struct{} // closed when Subscribe/Register #ord returned successfully
 	evBusy    bool
 	evReentered bool
+	closeReturned bool
+	clientAborted bool
+	routerEndClosed bool
 	routerClosedClient bool // router sent GOODBYE/ABORT or dropped
 	sendMu    sync.Mutex
 	routerDone chan struct{}
@@ -383,6 +415,15 @@ func (r *rig) label(l string) {
 }
 
 // routerSend delivers a message to the client unless the client end is gone.
+func (r *rig) closeRouterEnd() {
+	r.sendMu.Lock()
+	defer r.sendMu.Unlock()
+	if !r.routerEndClosed {
+		r.routerEndClosed = true
+		r.rp.Close()
+	}
+}
+
 func (r *rig) routerSend(m wamp.Message) bool {
 	r.sendMu.Lock()
 	defer r.sendMu.Unlock()
@@ -390,7 +431,9 @@ func (r *rig) routerSend(m wamp.Message) bool {
 }
 
 func (r *rig) routerSendLocked(m wamp.Message) bool {
-	defer func() { _ = recover() }() // send on a channel closed by rdrop
+	if r.routerEndClosed {
+		return false
+	}
 	select {
 	case r.rp.Send() <- m:
 		r.tr("router -> %s", MsgString(m))
@@ -477,10 +520,18 @@ func (r *rig) reply(op *Op, req wamp.ID, mk func(id wamp.ID) wamp.Message, mkErr
 }
 
 func (r *rig) routerLoop() {
-	defer close(r.routerDone)
+	defer func() {
+		// the client closed its end: a router drops the session and closes its own end
+		close(r.routerDone) // releases senders blocked on a client that reads no more
+		r.closeRouterEnd()
+	}()
 	for m := range r.rp.Recv() {
 		r.tr("router <- %s", MsgString(m))
 		switch x := m.(type) {
+		case *wamp.Abort:
+			r.mu.Lock()
+			r.clientAborted = true
+			r.mu.Unlock()
 		case *wamp.Subscribe:
 			ord := ordOfURI(string(x.Topic))
 			op := r.ops[ord]
@@ -690,6 +741,12 @@ func execClientRig(c *Case, trace bool, prop string) Verdict {
 		return Verdict{Kind: "inconclusive", Reason: "no HELLO"}
 	}
 	feat := wamp.Dict{"features": wamp.Dict{"payload_passthru_mode": true, "call_canceling": true, "progressive_call_results": true}}
+	switch c.P["features"].S {
+	case "noppt": // pass-through fields from a router that never announced the feature
+		feat = wamp.Dict{"features": wamp.Dict{"call_canceling": true, "progressive_call_results": true}}
+	case "none":
+		feat = wamp.Dict{}
+	}
 	rp.Send() <- &wamp.Welcome{ID: 4242, Details: wamp.Dict{"roles": wamp.Dict{"broker": feat, "dealer": feat}, "authid": "x", "authrole": "y"}}
 	synctest.Wait()
 	m := <-mc
@@ -810,18 +867,10 @@ func execClientRig(c *Case, trace bool, prop string) Verdict {
 			})
 		case "rdrop":
 			r.later(at, func() {
-				r.sendMu.Lock()
-				defer r.sendMu.Unlock()
 				r.mu.Lock()
-				already := r.routerClosedClient
 				r.routerClosedClient = true
 				r.mu.Unlock()
-				if !already {
-					func() {
-						defer func() { _ = recover() }()
-						rp.Close()
-					}()
-				}
+				r.closeRouterEnd()
 			})
 		}
 	}
@@ -873,6 +922,7 @@ func execClientRig(c *Case, trace bool, prop string) Verdict {
 	// benign probe after the burst (C17: "does not stop processing")
 	r.mu.Lock()
 	closedByRouter := r.routerClosedClient
+	aborted := r.clientAborted
 	r.mu.Unlock()
 	closedByScript := false
 	for _, op := range c.Ops {
@@ -880,7 +930,7 @@ func execClientRig(c *Case, trace bool, prop string) Verdict {
 			closedByScript = true
 		}
 	}
-	if !closedByRouter && !closedByScript && r.cli.Connected() {
+	if !closedByRouter && !closedByScript && !aborted && r.cli.Connected() {
 		probeOrd := 9000
 		pop := &Op{K: "subscribe", N: probeOrd, Opts: []KV{{"reply", VStr("now")}}}
 		r.ops[probeOrd] = pop
@@ -928,12 +978,7 @@ func execClientRig(c *Case, trace bool, prop string) Verdict {
 		return fail("client.Done() is not closed after Close()")
 	}
 	// release the router side
-	r.sendMu.Lock()
-	func() {
-		defer func() { _ = recover() }()
-		rp.Close()
-	}()
-	r.sendMu.Unlock()
+	r.closeRouterEnd()
 	time.Sleep(time.Second)
 	synctest.Wait()
 	r.wg.Wait()
@@ -988,6 +1033,7 @@ func (r *rig) markUndone(ref string) {
 func (r *rig) record(op *Op) *apiResult {
 	res := &apiResult{op: op, start: r.now()}
 	r.mu.Lock()
+	res.afterClose = r.closeReturned
 	r.results[op.N] = res
 	r.mu.Unlock()
 	return res
@@ -1000,7 +1046,11 @@ func (r *rig) runAPI(op *Op) {
 		return
 	case "close":
 		time.Sleep(time.Duration(op.Ns))
-		_ = r.cli.Close()
+		if err := r.cli.Close(); err == nil { // ErrAlreadyClosed: another Close() may still be at work
+			r.mu.Lock()
+			r.closeReturned = true
+			r.mu.Unlock()
+		}
 		return
 	}
 	res := r.record(op)
@@ -1080,6 +1130,14 @@ func (r *rig) runAPI(op *Op) {
 					return client.InvocationCanceled
 				case <-t.C:
 				}
+			case "ctxwait":
+				// a handler that works until it is told to stop, as the handler
+				// documentation allows
+				<-ctx.Done()
+				r.mu.Lock()
+				r.handlerCancelled[inv.Request] = true
+				r.mu.Unlock()
+				return client.InvocationCanceled
 			case "progress":
 				for p := 1; p <= 3; p++ {
 					if err := r.cli.SendProgress(ctx, wamp.List{p}, nil); err != nil {
@@ -1148,6 +1206,9 @@ func (r *rig) judge() string {
 	// hostile replies may carry any request id: only internal consistency is judged
 	strict := !r.hostile
 	for _, ord := range ords {
+		if res := r.results[ord]; res.afterClose && res.err == nil {
+			return fmt.Sprintf("%s#%d was issued after Close() had returned and reported success", res.op.K, ord)
+		}
 		if r.hostile {
 			// hostile raw replies may carry any request id, token or progress
 			// flag: what a call returned proves nothing about correlation (C16
